@@ -62,10 +62,12 @@ EFFECT_CALLS = {'warn', 'info', 'debug', 'warning', 'error', 'getLogger',
 class Machine:
     def __init__(self, env, stubs=None, resolver=None):
         self.env = env            # 'a', 'self.b.c' -> value
-        self.stubs = stubs or {}
+        self.stubs = stubs if stubs is not None else {}
         self.effects = []
         self.steps = 0
         self.resolver = resolver  # name -> value of a module global
+        self.yields = None        # list, while a generator body runs
+        self.receiver = None
 
     # ------------------------------------------------------------ values
     def key(self, e):
@@ -294,6 +296,8 @@ class Machine:
         raise Unknown(type(e).__name__)
 
     def comprehension(self, e):
+        if isinstance(e, ast.GeneratorExp):
+            return self.generator(e)
         saved = dict(self.env)
         out = []
 
@@ -328,6 +332,31 @@ class Machine:
             return dict(out)
         return out          # a generator, materialised
 
+    def generator(self, e):
+        """A generator expression: its first iterable is evaluated now,
+        everything else when the elements are asked for, in a scope of
+        its own that sees the variables of the enclosing function."""
+        first = self.iterate(self.ev(e.generators[0].iter))
+        sub = Machine(dict(self.env), self.stubs, self.resolver)
+        outer = self
+
+        def rec(k, items):
+            g = e.generators[k]
+            for item in items:
+                sub.steps = 0
+                sub.store(g.target, item)
+                if all(sub.ev(c) for c in g.ifs):
+                    if k + 1 == len(e.generators):
+                        v = sub.ev(e.elt)
+                        for key, val in sub.env.items():
+                            if key.startswith('self.'):
+                                outer.env[key] = val
+                        yield v
+                    else:
+                        yield from rec(k + 1, sub.iterate(
+                            sub.ev(e.generators[k + 1].iter)))
+        return rec(0, first)
+
     def iterate(self, v):
         if hasattr(v, '__next__'):
             # an iterator (the lines of a file): handed out lazily, so
@@ -353,7 +382,7 @@ class Machine:
 
     SAFE = {'set': set, 'dict': dict, 'list': list, 'tuple': tuple,
             'frozenset': frozenset, 'sorted': sorted, 'enumerate':
-            lambda *a: list(enumerate(*a)), 'zip':
+            lambda *a, **k: list(enumerate(*a, **k)), 'zip':
             lambda *a: list(zip(*a)), 'range': range, 'len': len,
             'any': any, 'all': all, 'min': min, 'max': max, 'abs': abs,
             'int': int, 'str': str, 'bool': bool, 'sum': sum,
@@ -376,6 +405,8 @@ class Machine:
     }
 
     def apply_callable(self, f, args, kw=None):
+        if isinstance(f, tuple) and f and f[0] == 'class':
+            return self.instantiate(f, args, kw or {})
         if isinstance(f, tuple) and f and f[0] == 'lambda':
             node, env, resolver = f[1], dict(f[2]), f[3]
             a = node.args
@@ -423,9 +454,21 @@ class Machine:
                 env[k] = v
             sub = Machine(env, self.stubs, resolver)
             sub.steps = self.steps
+            is_gen = any(isinstance(x, (ast.Yield, ast.YieldFrom))
+                         for x in au.walk_no_defs(fn))
+            if is_gen:
+                # a generator function: its body is run now and what it
+                # yields is handed out afterwards (the elements are the
+                # same; effects of the body happen earlier than in
+                # CPython, which no model relies on)
+                sub.yields = []
             try:
                 sub.run(fn.body)
+                if is_gen:
+                    return iter(sub.yields)
             except Returned as r:
+                if is_gen:
+                    return iter(sub.yields)
                 return r.value
             finally:
                 # closures see (and may change) the attributes of self
@@ -442,11 +485,61 @@ class Machine:
                 raise Raised(type(ex).__name__)
         raise Unknown('not callable')
 
+    def instantiate(self, cls, args, kw):
+        """An instance of a class of the program: an object whose
+        attributes live in a dictionary; `__init__` is interpreted."""
+        node, resolver = cls[1], cls[2]
+        if node.bases and not all(
+                au.src(b) in ('object',) for b in node.bases):
+            raise Unknown(f'class {node.name} with base classes')
+        obj = Sym(f'{node.name} object', dict())
+        obj.cls = cls
+        init = self.method_of(obj, '__init__')
+        if init is not None:
+            self.apply_callable(init, [obj] + list(args), kw)
+        elif args or kw:
+            raise Raised('TypeError')
+        return obj
+
+    def method_of(self, obj, name):
+        cls = getattr(obj, 'cls', None)
+        if cls is None:
+            return None
+        for st in cls[1].body:
+            if isinstance(st, ast.FunctionDef) and st.name == name:
+                return ('closure', st, cls[2],
+                        cls[3] if len(cls) > 3 else dict())
+        return None
+
     def call(self, e):
         n = au.call_name(e)
+        # a method of an object made by `instantiate`
+        if isinstance(e.func, ast.Attribute):
+            try:
+                recv0 = self.ev(e.func.value)
+            except (Unknown, Raised):
+                recv0 = None
+            if isinstance(recv0, Sym) and getattr(recv0, 'cls', None):
+                meth = self.method_of(recv0, e.func.attr)
+                if meth is not None:
+                    args = self.elements(e.args)
+                    kw = {k.arg: self.ev(k.value)
+                          for k in e.keywords if k.arg}
+                    return self.apply_callable(meth, [recv0] + args, kw)
+        if n == 'hasattr' and len(e.args) == 2:
+            obj = self.ev(e.args[0])
+            name = self.ev(e.args[1])
+            if isinstance(obj, Sym) and obj.attrs is not None and \
+                    isinstance(name, str):
+                return name in obj.attrs
+            raise Unknown(au.src(e))
         if n in self.stubs:
             args = self.elements(e.args)
             kw = {k.arg: self.ev(k.value) for k in e.keywords if k.arg}
+            # (the object the method is called on, for stubs that
+            # interpret a method of a class)
+            self.receiver = recv0 if isinstance(
+                e.func, ast.Attribute) else None
             return self.stubs[n](self, e, args, kw)
         if n in EFFECT_CALLS:
             self.effects.append(n)
@@ -566,6 +659,10 @@ class Machine:
             args = self.elements(e.args)
             kw = {k.arg: self.ev(k.value) for k in e.keywords if k.arg}
             return self.apply_callable(fv, args, kw)
+        if isinstance(fv, tuple) and fv and fv[0] == 'class':
+            args = self.elements(e.args)
+            kw = {k.arg: self.ev(k.value) for k in e.keywords if k.arg}
+            return self.instantiate(fv, args, kw)
         raise Unknown(f'call {n}')
 
     # -------------------------------------------------------- statements
@@ -574,6 +671,16 @@ class Machine:
             self.env[t.id] = v
         elif isinstance(t, ast.Attribute):
             k = self.key(t)
+            if k is not None and k in self.env:
+                self.env[k] = v
+                return
+            try:
+                base = self.ev(t.value)
+            except Unknown:
+                base = None
+            if isinstance(base, Sym) and isinstance(base.attrs, dict):
+                base.attrs[t.attr] = v
+                return
             if k is None:
                 raise Unknown(au.src(t))
             self.env[k] = v
@@ -626,6 +733,17 @@ class Machine:
         if isinstance(s, ast.Expr):
             if isinstance(s.value, ast.Constant):
                 return
+            if isinstance(s.value, (ast.Yield, ast.YieldFrom)):
+                if self.yields is None:
+                    raise Unknown('yield outside a generator function')
+                if isinstance(s.value, ast.Yield):
+                    self.yields.append(
+                        self.ev(s.value.value)
+                        if s.value.value is not None else None)
+                else:
+                    self.yields.extend(
+                        self.iterate(self.ev(s.value.value)))
+                return
             self.ev(s.value)
             return
         if isinstance(s, ast.Pass):
@@ -650,6 +768,9 @@ class Machine:
             return
         if isinstance(s, (ast.FunctionDef,)):
             self.env[s.name] = ('closure', s, self.resolver, self.env)
+            return
+        if isinstance(s, ast.ClassDef):
+            self.env[s.name] = ('class', s, self.resolver, self.env)
             return
         if isinstance(s, ast.For):
             broke = False
@@ -717,11 +838,39 @@ class Machine:
                 self.run(s.finalbody)
             return
         if isinstance(s, ast.With):
+            managers = []
             for item in s.items:
                 v = self.ev(item.context_expr)
+                entered = v
+                if isinstance(v, Sym) and getattr(v, 'cls', None):
+                    enter = self.method_of(v, '__enter__')
+                    leave = self.method_of(v, '__exit__')
+                    if enter is None or leave is None:
+                        raise Unknown('object without __enter__/__exit__')
+                    entered = self.apply_callable(enter, [v])
+                    managers.append((v, leave))
                 if item.optional_vars is not None:
-                    self.store(item.optional_vars, v)
-            self.run(s.body)
+                    self.store(item.optional_vars, entered)
+            try:
+                self.run(s.body)
+            except Raised as r:
+                # innermost first; a true result swallows the exception
+                swallowed = False
+                for v, leave in reversed(managers):
+                    if self.apply_callable(leave, [
+                            v, Sym(r.name), Sym(f'{r.name} instance'),
+                            Sym('traceback')]):
+                        swallowed = True
+                        break
+                if not swallowed:
+                    raise
+                return
+            except (Returned, _Break, _Continue):
+                for v, leave in reversed(managers):
+                    self.apply_callable(leave, [v, None, None, None])
+                raise
+            for v, leave in reversed(managers):
+                self.apply_callable(leave, [v, None, None, None])
             return
         if isinstance(s, ast.Return):
             raise Returned(self.ev(s.value) if s.value is not None
@@ -808,7 +957,7 @@ class ModuleEnv:
         self.program = program
         self.modname = modname
         self.fallback = fallback   # (module, name) -> value | KeyError
-        self.stubs = stubs or {}
+        self.stubs = stubs if stubs is not None else {}
         self.cache = dict()
         self.modules = _cache if _cache is not None else dict()
         self.modules[modname] = self
@@ -898,7 +1047,7 @@ class ModuleEnv:
             elif isinstance(found, ast.FunctionDef):
                 v = ('closure', found, self)
             elif isinstance(found, ast.ClassDef):
-                v = Sym(f'class {found.name}')
+                v = ('class', found, self)
             else:
                 try:
                     v = Machine(dict(), self.stubs, self).ev(found.value)
